@@ -411,7 +411,8 @@ const (
 	gAhead
 	gBehind
 	gAtomic
-	gCond // (?(N)yes|no)
+	gCond    // (?(N)yes|no)
+	gCondExp // (?(expr)yes|no): alts[0] is the condition, alts[1] the yes branch, alts[2] the no branch
 )
 
 type sNode struct {
@@ -475,6 +476,16 @@ func c18PrintAlts(sb *strings.Builder, alts [][]*sNode) {
 					sb.WriteString("(?>")
 				case gCond:
 					fmt.Fprintf(sb, "(?(%d)", s.cond)
+				case gCondExp:
+					sb.WriteString("(?(")
+					c18PrintAlts(sb, s.alts[:1])
+					sb.WriteString(")")
+					c18PrintAlts(sb, s.alts[1:])
+					sb.WriteByte(')')
+					if s.q != nil {
+						sb.WriteString(quantText(s.q.min, s.q.max, s.q.lazy))
+					}
+					continue
 				}
 				c18PrintAlts(sb, s.alts)
 				sb.WriteByte(')')
@@ -532,7 +543,29 @@ func c18LowerAlts(alts [][]*sNode, e c18Env) (*Node, error) {
 					inner = e.apply(s.txt)
 				}
 				var g *Node
-				if s.gk == gCond {
+				if s.gk == gCondExp {
+					// the condition is kept free of option groups (the parser rejects them there): it is built from
+					// atoms whose meaning does not depend on i, m, s over the alphabet in use ('.')
+					var cparts []*Node
+					for _, t := range s.alts[0] {
+						if t.k != sAtom {
+							return nil, errC18IllFormed
+						}
+						cparts = append(cparts, clone(t.atom))
+					}
+					cond := cat(cparts...)
+					yes, err := c18LowerAlts(s.alts[1:2], inner)
+					if err != nil {
+						return nil, err
+					}
+					no, err := c18LowerAlts(s.alts[2:3], inner)
+					if err != nil {
+						return nil, err
+					}
+					// an option group may not stand directly in a branch of an expression conditional (.NET rule, kept by
+					// the port): the pushed-down leaves are fenced by a plain non-capturing group
+					g = &Node{K: KCondExp, Kids: []*Node{cond, {K: KGroup, Kids: []*Node{yes}}, {K: KGroup, Kids: []*Node{no}}}}
+				} else if s.gk == gCond {
 					yes, err := c18LowerAlts(s.alts[:1], inner)
 					if err != nil {
 						return nil, err
@@ -850,6 +883,13 @@ func c18TogN(headers []string) map[string][][][]*sNode {
 						add("N2 (G1(?H)G2)G3 tail", t, sq(sg(gCap, "", sq(g1, ssw(h1), g2)), g3))
 						add("N4 (?:G1|(?H)G2)G3 tail", t, sq(sg(gNonCap, "", sq(g1), sq(ssw(h1), g2)), g3))
 						add("N5 (?:G1(?H:G2))G3 tail", t, sq(sg(gNonCap, "", sq(g1, sg(gOpt, h1, sq(g2)))), g3))
+						if k1 == 0 {
+							// an expression conditional inside the scope of the switch, a plain group right after the scope
+							ce := &sNode{k: sGroup, gk: gCondExp, alts: [][]*sNode{sq(sa(anyc())), sq(g2), sq(sa(lit('b')))}}
+							add("N6 (?H:(?(.)G2|b))G3 tail", t, sq(sg(gOpt, h1, sq(ce)), g3))
+							add("N6 ((?H)(?(.)G2|b))G3 tail", t, sq(sg(gCap, "", sq(ssw(h1), ce)), g3))
+							add("N6 (?H:G1(?(.)G2|b))G3 tail", t, sq(sg(gOpt, h1, sq(g1, ce)), g3))
+						}
 						for _, h2 := range headers {
 							add("N1 G1(?H1)G2(?H2)G3 tail", t, sq(g1, ssw(h1), g2, ssw(h2), g3))
 							add("N3 (?H1:G1(?H2:G2)G3) tail", t, sq(sg(gOpt, h1, sq(g1, sg(gOpt, h2, sq(g2)), g3))))
